@@ -144,6 +144,23 @@ pub fn bundles() -> Vec<(String, SpendBundle)> {
         v.push(("forged-first-reveal".into(), SpendBundle::new(vec![forged(2), spend(1, 1000, solution_for(1000, 10))], Signature::default())));
         v.push(("forged-third-reveal".into(), SpendBundle::new(vec![spend(1, 1000, solution_for(1000, 10)), spend(3, 1000, solution_for(1000, 10)), forged(2)], Signature::default())));
     }
+    // a coin created and spent in the same bundle, the second spend asserting just that (ASSERT_EPHEMERAL), with and without
+    // further plain conditions: no signatures, no messages, no excess value - both spends are dedup candidates
+    {
+        let puzzle = [1u8];
+        let ph = clvm_utils::tree_hash_atom(&puzzle).to_bytes();
+        let first = Coin::new([1u8; 32].into(), ph.into(), 1000);
+        let child = |amount: u64| Coin::new(first.coin_id(), ph.into(), amount);
+        // first spend: (51 ph 600) (51 ph' 400); second spend of the 600 coin: (76) (51 ph'' 600)
+        let mut s1 = vec![0xff, 0xff, 51, 0xff, 0xa0]; s1.extend_from_slice(&ph); s1.extend_from_slice(&[0xff, 0x82, 0x02, 0x58, 0x80]);
+        s1.extend_from_slice(&[0xff, 0xff, 51, 0xff, 0xa0]); s1.extend_from_slice(&[9u8; 32]); s1.extend_from_slice(&[0xff, 0x82, 0x01, 0x90, 0x80, 0x80]);
+        let mut s2 = vec![0xff, 0xff, 76, 0x80];
+        s2.extend_from_slice(&[0xff, 0xff, 51, 0xff, 0xa0]); s2.extend_from_slice(&[8u8; 32]); s2.extend_from_slice(&[0xff, 0x82, 0x02, 0x58, 0x80, 0x80]);
+        let cs1 = CoinSpend::new(first, Program::new(puzzle.as_slice().into()), s1.clone().into());
+        let cs2 = CoinSpend::new(child(600), Program::new(puzzle.as_slice().into()), s2.into());
+        v.push(("ephemeral-chain".into(), SpendBundle::new(vec![cs1.clone(), cs2.clone()], Signature::default())));
+        v.push(("ephemeral-chain-child-first".into(), SpendBundle::new(vec![cs2, cs1], Signature::default())));
+    }
     // minting (rejected everywhere)
     v.push(("minting".into(), SpendBundle::new(vec![spend(1, 1000, solution_for(1000, 1001))], Signature::default())));
     v
@@ -194,7 +211,7 @@ pub fn check_bundle(name: &str, b: &SpendBundle, interned: bool, strict: bool) -
     // verdicts the rules prescribe for the mempool path
     for (bn, want) in [("spends-6000", true), ("spends-6001", false), ("amount-0x8000000000000000", true), ("amount-0xffffffffffffffff", true),
                        ("two-spends", true), ("wrong-my-amount", false), ("forged-second-reveal", false), ("forged-first-reveal", false), ("forged-third-reveal", false),
-                       ("above-u64-minting", false), ("above-u64-exact", true), ("above-u64-fee-covered", true), ("above-u64-fee-short", false), ("interned-asymmetric", true), ("two-outputs-one-puzzle-hash", true), ("rich-conditions", true), ("minting", false), ("empty", true),
+                       ("above-u64-minting", false), ("above-u64-exact", true), ("above-u64-fee-covered", true), ("above-u64-fee-short", false), ("interned-asymmetric", true), ("two-outputs-one-puzzle-hash", true), ("rich-conditions", true), ("ephemeral-chain", true), ("ephemeral-chain-child-first", true), ("minting", false), ("empty", true),
                        ("last-generic", true), ("last-aggsig", true), ("last-message", true), ("last-create-coin", true)] {
         if name == bn && strict {
             n += 1;
@@ -304,6 +321,29 @@ pub fn check_bundle(name: &str, b: &SpendBundle, interned: bool, strict: bool) -
                     }
                 }
             }
+        }
+    }
+    // asking the mempool path for puzzle fingerprints (COMPUTE_FINGERPRINT) changes nothing else: the same verdict and the same
+    // conditions as without the flag - and hence as the block path under the same flags, which never computes fingerprints
+    if strict {
+        n += 1;
+        let mut a6 = make_allocator(ConsensusFlags::LIMIT_HEAP);
+        let with_fp = run_spendbundle(&mut a6, b, max, flags | ConsensusFlags::COMPUTE_FINGERPRINT, &TEST_CONSTANTS).map(|(c, _)| OwnedSpendBundleConditions::from(&a6, c));
+        let id = format!("{name}/{tag}/fingerprint-flag");
+        match (&mem, &with_fp) {
+            (Ok(m), Ok(k)) => {
+                if summary(m) != summary(k) || m.cost != k.cost { fails.push((id, format!("conditions differ once fingerprints are requested: {} cost {} vs {} cost {}", summary(m), m.cost, summary(k), k.cost))); }
+                else {
+                    // a fingerprint is reported exactly for the spends flagged dedup-eligible
+                    for sp in &k.spends {
+                        let flagged = sp.flags & chia_consensus::conditions::ELIGIBLE_FOR_DEDUP != 0;
+                        if flagged == sp.fingerprint.is_empty() { fails.push((id.clone(), format!("spend {}: dedup flag = {flagged}, fingerprint of {} bytes", hex::encode(sp.coin_id), sp.fingerprint.len()))); break; }
+                    }
+                }
+            }
+            (Err(_), Err(_)) => {}
+            (Ok(_), Err(e)) => fails.push((id, format!("accepted without COMPUTE_FINGERPRINT, rejected with it: {e:?}"))),
+            (Err(e), Ok(_)) => fails.push((id, format!("rejected without COMPUTE_FINGERPRINT ({e:?}), accepted with it"))),
         }
     }
     // (a generator carries parent, puzzle, amount, solution - not the declared puzzle hash - so a bundle whose declared hash is wrong has no
